@@ -68,7 +68,7 @@ pub struct ZoneCase {
 
 /// Is the rule-governed instant u in the property's scope (rule transitions of the years around
 /// it lie more than one day inside their calendar years)?
-fn rule_scope_ok(m: &ZoneModel, u: i64) -> bool {
+pub fn rule_scope_ok(m: &ZoneModel, u: i64) -> bool {
     match &m.rule {
         Some(r) if r.dst.is_some() => {
             let y = tz::year_of_unix(u);
